@@ -59,6 +59,17 @@ def check_definition(case, ctx):
         raise Violation(sig, "%s; bars=%s" % (msg, bars))
     if fired:
         ctx.label("shortcut_fired_but_right")
+    if case["hom_deg"] == 0 and not case["pad"]:
+        # the per-depth accessor on an object whose landscape has not been computed yet (compute=False): the very first call must
+        # already return the depth, and repeating it must give the same answer
+        from persim import PersLandscapeExact
+        arr = np.array(bars + ([[case["trailing_inf"], LD.INF]] if case["trailing_inf"] is not None else []), dtype=float)
+        lazy = ctx.call(PersLandscapeExact, dgms=[arr], hom_deg=0, compute=False)
+        k = len(cps) - 1
+        first = ctx.call(lazy.compute_landscape_by_depth, k)
+        again = ctx.call(lazy.compute_landscape_by_depth, k)
+        same = [[float(v) for v in q] for q in first] == [[float(v) for v in q] for q in cps[k]] == [[float(v) for v in q] for q in again]
+        ctx.require(same, "depth_accessor_differs", lambda: "compute_landscape_by_depth(%d) on a lazily built landscape: %r, then %r; critical_pairs[%d] = %r" % (k, first, again, k, cps[k]))
 
 
 @st.composite
